@@ -144,3 +144,90 @@ def violations(pid, rejected, rows, scenarios):
                     "replay": {"scenario": sc, "monitor": "Refinement", "frontier": rj.get("frontier"),
                                "trace": [r for r in rows if r.get("scen") == rj["id"] and r["ev"] != "expect"][:400]}})
     return out
+
+
+def tamper_variants(tr):
+    """corrupted copies of an accepted trace: each must be rejected (the refinement check is bound to what was recorded)"""
+    import copy
+    out = []
+
+    def find(t, pred):
+        for pi, q in enumerate(t["procs"]):
+            for ei, e in enumerate(q):
+                if pred(e):
+                    return pi, ei
+        return None
+
+    def renumber(t):
+        for q in t["procs"]:
+            prev = 0
+            for e in q:
+                e["after"] = prev
+                prev = e["seq"]
+        return t
+
+    # 1. connWg.Done announced before OnClose (order inside the connection goroutine)
+    t = copy.deepcopy(tr)
+    a, b = find(t, lambda e: e["ev"] == "onclose_in"), find(t, lambda e: e["ev"] == "gate" and e["k"] == "conn.teardown.pre_done")
+    if a and b and a[0] == b[0]:
+        q = t["procs"][a[0]]
+        ev = q.pop(b[1])
+        q.insert(a[1], ev)
+        q[a[1]]["seq"], q[a[1] + 1]["seq"] = q[a[1] + 1]["seq"], q[a[1]]["seq"]
+        out.append(("pre_done before onclose", renumber(t)))
+    # 2. the registration step is missing
+    t = copy.deepcopy(tr)
+    a = find(t, lambda e: e["ev"] == "gate" and e["k"] == "run.registered")
+    if a:
+        t["procs"][a[0]].pop(a[1])
+        out.append(("run.registered dropped", renumber(t)))
+    # 3. a request read on a connection id nobody was given
+    t = copy.deepcopy(tr)
+    a = find(t, lambda e: e["ev"] == "gate" and e["k"] == "conn.read")
+    if a:
+        t["procs"][a[0]][a[1]]["conn"] += 7
+        out.append(("conn.read on an unknown connection id", t))
+    # 4. a request id that skips one
+    t = copy.deepcopy(tr)
+    if a:
+        t["procs"][a[0]][a[1]]["req"] += 1
+        out.append(("conn.read with a request id that skips one", t))
+    # 5. Stop returns before it cancelled the context
+    t = copy.deepcopy(tr)
+    a, b = find(t, lambda e: e["ev"] == "gate" and e["k"] == "stop.cancelled"), find(t, lambda e: e["ev"] == "stop_ret")
+    if a and b and a[0] == b[0]:
+        q = t["procs"][a[0]]
+        q[a[1]], q[b[1]] = q[b[1]], q[a[1]]
+        q[a[1]]["seq"], q[b[1]]["seq"] = q[b[1]]["seq"], q[a[1]]["seq"]
+        out.append(("stop_ret before stop.cancelled", renumber(t)))
+    # 6. a handler returns for a request that was never read
+    t = copy.deepcopy(tr)
+    a = find(t, lambda e: e["ev"] == "hend")
+    if a:
+        t["procs"][a[0]][a[1]]["req"] += 5
+        out.append(("hend of a request never dispatched", t))
+    return out
+
+
+def selftest(run, rows, scenarios):
+    """returns (number of corrupted traces, descriptions of those that were accepted - must be empty)"""
+    groups, _ = traces_of(rows, scenarios)
+    trs = groups.get(('"none"', "FALSE"), [])
+    pick = None
+    for t in trs:
+        evs = [e for q in t["procs"] for e in q]
+        if any(e["ev"] == "stop_ret" for e in evs) and any(e["ev"] == "hend" for e in evs) and any(e["ev"] == "onclose_in" for e in evs) and len(evs) < 80:
+            pick = t
+            break
+    if pick is None:
+        return 0, []
+    vs = [("untouched", pick)] + tamper_variants(pick)
+    f = run.path("refine_selftest.ndjson")
+    vlib.write_ndjson(f, [dict(t, id=900000 + i) for i, (_, t) in enumerate(vs)])
+    consts = dict(CONSTS, TLSMode='"none"', ListenFails="FALSE")
+    body = "INIT RInit\nNEXT RNext\nCONSTRAINT NotYetAccepted\nPOSTCONDITION Report\nCHECK_DEADLOCK FALSE\n"
+    res = run.tlc("GldapRefine", scen.cfg(consts, body), env={"OBS": f}, workers=1, timeout=600, dfs=True, heap="8g", cdot=True)
+    acc = set(parse_line(res.out, "ACCEPTED") or [])
+    if 900000 not in acc:
+        raise vlib.Infra("refinement self-test: the untouched trace was not accepted")
+    return len(vs) - 1, [d for i, (d, _) in enumerate(vs) if i > 0 and 900000 + i in acc]
